@@ -45,8 +45,10 @@ func nativeDiff(n any, s *spec.Spec, path string) string {
 		if s.K != spec.List {
 			return fmt.Sprintf("at %s: []any, expected %s", path, s.Short())
 		}
-		if x == nil && false {
-			return ""
+		if x == nil {
+			// deep-equal in Go's sense: a nil slice is not deep-equal to an empty one (it also marshals as null); the
+			// conversion of an empty list is an empty slice, as NewListFrom([]any{}).NativeSlice() must reproduce its input
+			return fmt.Sprintf("at %s: nil []any for a list (expected a non-nil slice of length %d)", path, len(s.L))
 		}
 		if len(x) != len(s.L) {
 			return fmt.Sprintf("at %s: []any of length %d, expected %d", path, len(x), len(s.L))
@@ -59,6 +61,9 @@ func nativeDiff(n any, s *spec.Spec, path string) string {
 	case map[string]any:
 		if s.K != spec.Obj {
 			return fmt.Sprintf("at %s: map, expected %s", path, s.Short())
+		}
+		if x == nil {
+			return fmt.Sprintf("at %s: nil map for an object (expected a non-nil map with %d keys)", path, len(s.Keys))
 		}
 		if len(x) != len(s.Keys) {
 			return fmt.Sprintf("at %s: map with %d keys, expected %d", path, len(x), len(s.Keys))
@@ -180,6 +185,126 @@ func runC13(c *fw.Ctx) {
 				c.Violate("import-export-roundtrip-differs", in(), want.Canon(), d)
 			}
 			c.Distinct(in())
+		})
+	})
+	// native sources in which one slice / map instance occurs at several places, and slices that are views of one
+	// backing array (prefixes, a middle part, the whole): every occurrence is converted according to ITS content; and
+	// containers that hold one container instance (also an empty one) at several places: every occurrence is exported
+	c.Cases("aliased-natives", c.N(300, 30000), false, func(i int, r *rng.R) {
+		n := r.Range(1, 6)
+		base := make([]any, n, n+r.Intn(3))
+		for j := range base {
+			base[j] = []any{j, "s", 2.5, nil, true}[r.Intn(5)]
+			if r.Chance(1, 5) {
+				base[j] = []any{j}
+			}
+		}
+		m := map[string]any{"k": r.Intn(3)}
+		if r.Chance(1, 3) {
+			m = map[string]any{}
+		}
+		view := func() any {
+			switch r.Intn(7) {
+			case 0:
+				return base
+			case 1:
+				return base[:r.Intn(n+1)]
+			case 2:
+				lo := r.Intn(n + 1)
+				return base[lo : lo+r.Intn(n-lo+1)]
+			case 3:
+				return base[:0]
+			case 4:
+				return m
+			case 5:
+				return base[:n:n]
+			default:
+				return []any{}
+			}
+		}
+		var src any
+		k := r.Range(2, 5)
+		if r.Bool() {
+			l := make([]any, k)
+			for j := range l {
+				l[j] = view()
+			}
+			if r.Chance(1, 3) {
+				l = append(l, map[string]any{"v": view(), "w": view()})
+			}
+			src = l
+		} else {
+			o := map[string]any{}
+			for j := 0; j < k; j++ {
+				o[fmt.Sprintf("k%d", j)] = view()
+			}
+			if r.Chance(1, 3) {
+				o["nest"] = []any{view(), view()}
+			}
+			src = o
+		}
+		want := deepCopyNative(src)
+		in := func() string {
+			return fmt.Sprintf("native source with shared / overlapping slices and maps: %#v (views of one array %#v)", want, base)
+		}
+		guard(c, in, func() {
+			c.Count("aliased_native_sources")
+			c.Distinct(in())
+			imported := fromNative(src)
+			back := nativeOf(imported)
+			if !reflect.DeepEqual(back, want) {
+				c.Violate("import-export-roundtrip-differs", in(), fmt.Sprintf("%#v", want), fmt.Sprintf("%#v", back))
+				return
+			}
+			// the source stays what it was, and is not aliased
+			if !reflect.DeepEqual(src, want) {
+				c.Violate("import-modifies-source", in(), fmt.Sprintf("%#v", want), fmt.Sprintf("%#v", src))
+				return
+			}
+			scribble(src)
+			if back2 := nativeOf(imported); !reflect.DeepEqual(back2, want) {
+				c.Violate("import-aliases-source", in(), "container unchanged after the source was overwritten", fmt.Sprintf("%#v", back2))
+				return
+			}
+			// the other direction: one container instance at several places of a container
+			var shared any = at.NewList()
+			desc := "an empty list"
+			switch r.Intn(5) {
+			case 0:
+				shared, desc = at.NewObject(), "an empty object"
+			case 1:
+				shared, desc = at.NewList(1, at.NewList()), "[1,[]]"
+			case 2:
+				shared, desc = at.NewObject("e", at.NewList(), "o", at.NewObject()), "{e:[],o:{}}"
+			case 3:
+				shared, desc = at.NewList(at.NewObject("a", 1)), "[{a:1}]"
+			}
+			one := nativeOf(at.NewList(shared))
+			var holder any
+			reps := r.Range(2, 4)
+			var wantH any
+			if r.Bool() {
+				args := make([]any, reps)
+				w := make([]any, reps)
+				for j := range args {
+					args[j] = shared
+					w[j] = deepCopyNative(one.([]any)[0])
+				}
+				holder, wantH = at.NewList(args...), w
+			} else {
+				o := at.NewObject()
+				w := map[string]any{}
+				for j := 0; j < reps; j++ {
+					o.Set(fmt.Sprintf("k%d", j), shared)
+					w[fmt.Sprintf("k%d", j)] = deepCopyNative(one.([]any)[0])
+				}
+				holder, wantH = o, w
+			}
+			c.Count("shared_instance_exports")
+			got := nativeOf(holder)
+			if !reflect.DeepEqual(got, wantH) {
+				c.Violate("native-export-differs", fmt.Sprintf("container holding %s (one instance) %d times", desc, reps), fmt.Sprintf("every occurrence exported like a single one: %#v", wantH), fmt.Sprintf("%#v", got))
+			}
 		})
 	})
 	c.Cases("import-after-rejection", c.N(60, 3000), false, func(i int, r *rng.R) {
@@ -332,7 +457,7 @@ func c13Case(c *fw.Ctx, r *rng.R, tree *spec.Spec) {
 			return
 		}
 		back := nativeOf(imported)
-		if !reflect.DeepEqual(normaliseEmpty(back), normaliseEmpty(keep)) {
+		if !reflect.DeepEqual(back, deepCopyNative(keep)) { // the source consists of non-nil maps and slices only, so the reproduction is exact
 			c.Violate("import-export-roundtrip-differs", in(), fmt.Sprintf("%v", keep), fmt.Sprintf("%v", back))
 			return
 		}
